@@ -393,10 +393,7 @@ func RegionsFromGFF(anno gff.GFF, refSeqDegapped string) ([]Region, []int, error
 		tempcds = append(tempcds, r)
 	}
 
-	// get a slide of positions that are not coding based on everything above
-	inter := codes(tempcds, len(refSeqDegapped))
-
-	// then make the final coding regions based on what has a name
+	// make the final coding regions based on what has a name
 	cds := make([]Region, 0)
 	for _, r := range tempcds {
 		if r.Name == "" {
@@ -404,6 +401,10 @@ func RegionsFromGFF(anno gff.GFF, refSeqDegapped string) ([]Region, []int, error
 		}
 		cds = append(cds, r)
 	}
+
+	// get a slice of positions that are not in any of the regions that mutations will be called in:
+	// a nucleotide change inside an unnamed feature (which is not annotated itself) is reported as nuc
+	inter := codes(cds, len(refSeqDegapped))
 
 	// sort by start position
 	sort.SliceStable(cds, func(j, k int) bool {
